@@ -1,2 +1,6 @@
 From OCV Require Export Base.Prelude Queue.PMap Queue.OWS Queue.OWSOracle Cases.OWS.
-Definition judge := judge_with o_c04.
+From OCV Require Queue.PWS.
+From OCV Require Export Cases.PWS.
+(** ordered queue (lockstep oracle of Queue/OWSOracle) | plain queue (Queue/PWSOracle) *)
+Definition judge (c : qcase + pcase) : verdict :=
+  match c with inl q => judge_with o_c04 q | inr p => judge_pws_c04 p end.
